@@ -1,4 +1,6 @@
 import B2Z.Model.ExplodeProto
+import B2Z.Proofs.Fs
+import B2Z.Proofs.ExplodeProto
 /-! # C05 — distributed explode is crash-safe: never falsely complete, reruns recover
 
 Model: `B2Z.XP` (`Model/ExplodeProto.lean`) over the object-level file system `B2Z.Fs`.
@@ -16,13 +18,27 @@ def Cfg.WF (c : Cfg) : Prop :=
     then every data object of every partition is present and whole (and the header is there) -/
 theorem C05_never_falsely_complete (c : Cfg) (h : List (Cmd × Option Nat)) :
     loads (runHist c Fs.empty h) = true → DataComplete c (runHist c Fs.empty h) := by
-  sorry
+  intro hl
+  have hf : runHist c Fs.empty h .final = .ok := by
+    simp only [loads, Bool.and_eq_true, decide_eq_true_eq] at hl
+    exact hl.1
+  exact (Inv_reachable c h).finData (by rw [hf]; simp)
 
 /-- **finalise refuses** while any partition is unfinished, and changes nothing -/
 theorem C05_finalise_refuses (c : Cfg) (s : S) (kill : Option Nat)
     (h : ∃ j, j < c.nParts ∧ s (.summary j) ≠ .ok) :
     (step c s .finalise kill).error = true ∧ (step c s .finalise kill).st = s := by
-  sorry
+  obtain ⟨j, hj, hs⟩ := h
+  show (exec s (finaliseProg c) kill).error = true ∧ (exec s (finaliseProg c) kill).st = s
+  rw [finaliseProg_eq]
+  by_cases hp : s .plan = .ok
+  · rw [exec_check_pass _ _ _ _ (by simpa using hp)]
+    apply exec_check_fail
+    rw [Bool.eq_false_iff]
+    intro hall
+    have := List.all_eq_true.1 hall j (List.mem_range.2 hj)
+    exact hs (by simpa using this)
+  · exact exec_check_fail _ _ _ _ (by simpa using hp)
 
 /-- **reruns recover**: from any state reached by any history in which the plan is readable and the
     store is not finalised, running every partition to completion — in any order, each any number
@@ -32,7 +48,11 @@ theorem C05_rerun_recovers (c : Cfg) (wf : c.WF) (h : List (Cmd × Option Nat))
     (order : List Nat) (hall : ∀ j, j < c.nParts → j ∈ order) (hrange : ∀ j ∈ order, j < c.nParts) :
     runHist c (runHist c Fs.empty h) (order.map (fun j => (Cmd.partition j, none)) ++ [(Cmd.finalise, none)])
       = finalState c := by
-  sorry
+  have hmem : ∀ j, j < c.nParts → some j ∈ c.rmOrder := fun j hj =>
+    (List.Perm.mem_iff wf).2 (by simp [hj])
+  have hnone : none ∈ c.rmOrder := (List.Perm.mem_iff wf).2 (by simp)
+  exact rerun_complete hmem hnone order _ (Inv_reachable c h) hplan hfin hrange
+    (fun j hj => Or.inl (hall j hj))
 
 /-- an interrupted finalise can be rerun: if the plan and every summary are still readable it
     completes with the same final state -/
@@ -40,7 +60,10 @@ theorem C05_finalise_rerun (c : Cfg) (wf : c.WF) (h : List (Cmd × Option Nat))
     (hplan : runHist c Fs.empty h .plan = .ok)
     (hsum : ∀ j, j < c.nParts → runHist c Fs.empty h (.summary j) = .ok) :
     (step c (runHist c Fs.empty h) .finalise none).st = finalState c := by
-  sorry
+  have hmem : ∀ j, j < c.nParts → some j ∈ c.rmOrder := fun j hj =>
+    (List.Perm.mem_iff wf).2 (by simp [hj])
+  have hnone : none ∈ c.rmOrder := (List.Perm.mem_iff wf).2 (by simp)
+  exact finalise_complete (Inv_reachable c h) hplan hsum hmem hnone
 
 /-- **out of protocol**: a command whose precondition fails ends in an error and leaves every
     object as it was -/
@@ -49,7 +72,31 @@ theorem C05_out_of_protocol (c : Cfg) (s : S) (kill : Option Nat) :
     (∀ j, (s .plan ≠ .ok ∨ ¬ j < c.nParts ∨ s .final ≠ .absent) →
         (step c s (.partition j) kill).error = true ∧ (step c s (.partition j) kill).st = s) ∧
     (s .plan ≠ .ok → (step c s .finalise kill).error = true ∧ (step c s .finalise kill).st = s) := by
-  sorry
+  refine ⟨?_, ?_, ?_⟩
+  · intro hr
+    show (exec s (initProg c) kill).error = true ∧ (exec s (initProg c) kill).st = s
+    rw [initProg_eq]
+    exact exec_check_fail _ _ _ _ (by simpa using hr)
+  · intro j hpre
+    show (exec s (partitionProg c s j) kill).error = true ∧
+      (exec s (partitionProg c s j) kill).st = s
+    rw [partitionProg_eq]
+    by_cases hp : s .plan = .ok
+    · rw [exec_check_pass _ _ _ _ (by simpa using hp)]
+      by_cases hj : j < c.nParts
+      · rw [exec_check_pass _ _ _ _ (by simpa using hj)]
+        have hf : s .final ≠ .absent := by
+          rcases hpre with h' | h' | h'
+          · exact absurd hp h'
+          · exact absurd hj h'
+          · exact h'
+        exact exec_check_fail _ _ _ _ (by simpa using hf)
+      · exact exec_check_fail _ _ _ _ (by simpa using hj)
+    · exact exec_check_fail _ _ _ _ (by simpa using hp)
+  · intro hp
+    show (exec s (finaliseProg c) kill).error = true ∧ (exec s (finaliseProg c) kill).st = s
+    rw [finaliseProg_eq]
+    exact exec_check_fail _ _ _ _ (by simpa using hp)
 
 /-- finding F7 (fixed): without the `final = absent` check a partition rerun after a finalise that
     was killed between writing `metadata.json` and removing `wip/metadata.json` rewrites chunks of
